@@ -52,6 +52,18 @@ theorem view_rebase_roundtrip_new_counter :
 example : (seqRoundtripNew [0,1,2,3,4,5,6,7,8,9] { start := -3, stop := -10, step := -2, offset := 7, seqLen := 10 }).toOption
     = some ([1,2,3,4,5,6,7], { start := -1, stop := -8, step := -2, offset := 8, seqLen := 7 }) := by decide
 
+-- a REVERSED STRIDED view with NON-ZERO residue (truncated parent length 9, (9-1) % 3 = 2; `seq.rc()[1::3]` on 10
+-- residues with annotation offset 100): striding from the right end is not "stride from the left, then reverse"
+example : Inv { start := -2, stop := -11, step := -3, offset := 100, seqLen := 10 } := by decide
+example : (seqRoundtripNew [0,1,2,3,4,5,6,7,8,9] { start := -2, stop := -11, step := -3, offset := 100, seqLen := 10 }).toOption.map
+      (fun r => (r.1, r.2, realise r.1 r.2, parentStart r.2 |>.toOption, parentStop r.2 |>.toOption))
+    = some ([0,1,2,3,4,5,6,7,8], { start := -1, stop := -10, step := -3, offset := 100, seqLen := 9 }, [8,5,2], some 100, some 109) := by decide
+example : (seqRoundtripOld [0,1,2,3,4,5,6,7,8,9] { start := -2, stop := -11, step := -3, offset := 100, seqLen := 10 }).toOption.map
+      (fun r => (r.1, r.2, realise r.1 r.2))
+    = some ([0,1,2,3,4,5,6,7,8], { start := -1, stop := -10, step := -3, offset := 100, seqLen := 9 }, [8,5,2]) := by decide
+example : (parentStart { start := -2, stop := -11, step := -3, offset := 100, seqLen := 10 }).toOption = some 100
+    ∧ (parentStop { start := -2, stop := -11, step := -3, offset := 100, seqLen := 10 }).toOption = some 109 := by decide
+
 /-- New-style `Sequence.copy(sliced=True)` (`SeqView.copy(sliced=True)` builds the truncated
 parent with `step` only, the Sequence re-attaches `annotation_offset = parent_start`): for EVERY
 view satisfying the invariant, with ANY offset, the copy succeeds and is observationally the
@@ -84,6 +96,29 @@ example : (toRichDataView [0,1,2,3,4,5] { start := 0, stop := 4, step := 1, offs
 theorem dataview_export_counter :
     (toRichDataView [0,1,2,3,4,5,6,7,8,9] { start := 2, stop := 8, step := 1, offset := 0, seqLen := 10 }).seq = [4,5,6,7]
     ∧ realise [0,1,2,3,4,5,6,7,8,9] { start := 2, stop := 8, step := 1, offset := 0, seqLen := 10 } = [2,3,4,5,6,7] := by
+  decide
+
+/-- The Sequence a new-style collection hands out (a `SeqDataView` inside) through
+`Sequence.to_rich_dict → SeqDataView.to_rich_dict → _moltype_seq_from_rich_dict`: for every invariant view that is
+an unsliced forward prefix (`start = 0`, `step = 1`, any stop, any offset) the rebuilt sequence displays the same
+string, has the same parent coordinates, satisfies the invariant, and (non-empty) the same strand. -/
+theorem dataview_roundtrip_partial {α} [Inhabited α] (parent : List α) (v : View)
+    (hinv : Inv v) (hlen : v.seqLen = parent.length) (hs : v.start = 0) (hc : v.step = 1) :
+    ∃ r, seqRoundtripDataView parent v = .ok r ∧ RebaseObs parent v r ∧
+      (v.start ≠ v.stop → isReversed r.2 = isReversed v) :=
+  dataview_path_prefix parent v hinv hlen hs hc
+
+example : Inv { start := 0, stop := 4, step := 1, offset := 0, seqLen := 6 } := by decide
+example : (seqRoundtripDataView [0,1,2,3,4,5] { start := 0, stop := 4, step := 1, offset := 0, seqLen := 6 }).toOption
+    = some ([0,1,2,3], { start := 0, stop := 4, step := 1, offset := 0, seqLen := 4 }) := by decide
+
+/- FULL STATEMENT (not proved): the same for EVERY `Inv` view. False for the mirrored model and the real code
+   (open finding C10-seqdataview-export-slices-twice): a reversed strided member view with non-zero residue
+   (`coll.get_seq('a').rc()[1::3]` on 10 residues: start=-2, stop=-11, step=-3) exports a wrong, shorter string: -/
+theorem dataview_roundtrip_counter :
+    realise [0,1,2,3,4,5,6,7,8,9] { start := -2, stop := -11, step := -3, offset := 0, seqLen := 10 } = [8,5,2]
+    ∧ (seqRoundtripDataView [0,1,2,3,4,5,6,7,8,9] { start := -2, stop := -11, step := -3, offset := 0, seqLen := 10 }).toOption.map
+        (fun r => realise r.1 r.2) = some [2] := by
   decide
 
 /-- `IndelMap`: whatever constructor route built the map (`cum_gap_lengths` or `gap_lengths`),
